@@ -202,8 +202,9 @@ class GuidedStrategy(Strategy):
     is validated like any other; `followed`/`skipped` tell how faithfully the behaviour was realised.
     """
 
-    def __init__(self, script, role_of, gates, seed=0, patience=60):
+    def __init__(self, script, role_of, gates, seed=0, patience=60, advance_clock=True):
         import random
+        self.advance_clock = advance_clock
         self.script = list(script)
         self.role_of = role_of
         self.gates = gates
@@ -488,6 +489,15 @@ class Scheduler:
                        and t.deadline - self.now <= self.lag and t.deadline <= limit]
                 if due:
                     t = self.strategy.fire_early(self, due)
+                    if t is not None and not getattr(self.strategy, 'advance_clock', True):
+                        # scripted expiry of ONE thread's timer without moving the clock (spec -> code steering: the model
+                        # has no clock, the behaviour says "this wait times out now"; the other threads' deadlines must
+                        # not come closer because of it)
+                        t.status = RUNNABLE
+                        t.timed_out = True
+                        if self.record_choices:
+                            self.choices.append(f'T{t.tid}')
+                        continue
                     if t is not None:
                         # keep deadline order: everything due before t fires too
                         for u in due:
